@@ -797,6 +797,14 @@ z3::expr uf_apply(int op, const z3::expr& x, const z3::expr* y = nullptr)
         if (op == U_LOG) add_pc(v <= a.val + (x - a.arg) / a.arg && a.val <= v + (a.arg - x) / x);
         if (op == U_LOG1P) add_pc(v <= a.val + (x - a.arg) / (one + a.arg) && a.val <= v + (a.arg - x) / (one + x));
     }
+    if (op == 1000 + B_POW && y)
+    {
+        // real power with a non-negative base and exponent: stays on the same side of 1 as the base, and non-negative
+        const z3::expr zero = C->real_val(0);
+        add_pc(z3::implies(x >= zero && *y >= zero, v >= zero));
+        add_pc(z3::implies(x >= zero && x <= one && *y >= zero, v <= one));
+        add_pc(z3::implies(x >= one && *y >= zero, v >= one));
+    }
     switch (op)
     {
     case U_EXP: add_pc(v > 0 && v >= one + x); break;
